@@ -79,7 +79,7 @@ func drawBase(t *rapid.T, x *X, maxLen int) *Case {
 	c := &Case{Entry: drawEntry(t, g, false)}
 	c.Input = gspec.SampleInput(t, g, entryRuleName(g, c.Entry), alphabetFor(g), maxLen)
 	if gspec.U(t, 3, "fname") == 0 {
-		c.Opts.Filename = gspec.Pick(t, []string{"f.txt", "dir/a b.peg"}, "filename")
+		c.Opts.Filename = gspec.Pick(t, []string{"f.txt", "dir/a b.peg", "100%d/%s.txt", "f.txt"}, "filename")
 	}
 	return c
 }
@@ -259,8 +259,17 @@ func firstEvent(ev []vrt.Event) string {
 
 func drawC05(t *rapid.T, x *X) *Case {
 	c := drawBase(t, x, 40)
-	c.Plan = drawPlan(t, x.G.Spec, 0, false, false)
+	// (a third of the cases: up to two blocks report an error - the match goes on, and whatever
+	// the failing block did to the store is undone like after any other action or predicate)
+	nf := 0
+	if gspec.U(t, 3, "withfaults") == 0 {
+		nf = 2
+	}
+	c.Plan = drawPlan(t, x.G.Spec, nf, x.G.Spec.Profile == "leftrec", false)
 	c.Plan.TryStateWrites = rapid.Bool().Draw(t, "trywrites")
+	if nf > 0 {
+		c.Plan.TryStateWrites = true
+	}
 	if rapid.Bool().Draw(t, "initstate") {
 		c.Opts.InitInts = map[string]int{"k1": gspec.U(t, 6, "initk1")}
 		if rapid.Bool().Draw(t, "initlist") {
@@ -376,6 +385,30 @@ func compareErrors(ref *refpeg.Result, resp *vrt.Response, ctx *vrt.Ctx) string 
 		}
 	}
 	return ""
+}
+
+// lrErrLost recognises the recorded finding KF-C17-LRERRLOST (same root as
+// KF-C06-LRMEMOERR, without the Memoize option): the result of a left-recursive leader is
+// always memoized; when a leader is first evaluated inside a growth attempt that an outer
+// leader then discards, the errors raised meanwhile are dropped with the attempt but the
+// memoized result stays, so the later, kept use of that result raises nothing. Covered:
+// the returned list is the reference list minus messages that, in the reference evaluation,
+// some invocation of a left-recursive rule dropped.
+func lrErrLost(ref *refpeg.Result, resp *vrt.Response) bool {
+	if len(ref.Stats.LRDroppedErrs) == 0 || len(resp.Errs) >= len(ref.Errs) {
+		return false
+	}
+	j := 0
+	for _, w := range ref.Errs {
+		if j < len(resp.Errs) && (resp.Errs[j].Msg == w.Msg || resp.Errs[j].Msg == w.AltMsg) {
+			j++
+			continue
+		}
+		if ref.Stats.LRDroppedErrs[w.Msg] == 0 {
+			return false
+		}
+	}
+	return j == len(resp.Errs)
 }
 
 func checkC11(x *X, c *Case, strict bool) *Outcome {
@@ -573,9 +606,18 @@ func checkC17(x *X, c *Case, strict bool) *Outcome {
 		}
 		if !nomatch {
 			if d := compareErrors(ref, resp, ctx); d != "" {
+				if !strict && x.KF["KF-C17-LRERRLOST"] && lrErrLost(ref, resp) {
+					return &Outcome{Excluded: "KF-C17-LRERRLOST"}
+				}
 				o.Viol = viol(pk, c, "encoding_errors", d, describeRef(ref), describeResp(resp))
 				return o
 			}
+		}
+		if !lrOnce(ref) {
+			// a left-recursive rule invoked again at an offset re-runs code blocks in an order the
+			// denotation does not fix: outcome and errors only
+			o.Tags = append(o.Tags, "lr_reinvoked_outcome_only")
+			continue
 		}
 		// text seen by actions = original bytes; offsets count bytes (action events only)
 		for i, e := range ref.Events {
